@@ -1,5 +1,5 @@
 #!/usr/bin/env python3
-"""atheris target (add-on to C01/C02/C15, not a registered check): bytes -> (vrl, records) -> real writer -> strict
+"""atheris target (run by the thorough tiers of C01, C02 and C15 and by tools/fuzz.sh): bytes -> (vrl, records) -> real writer -> strict
 framing parse + lossless reassembly.  The oracle is inside the target; a failing input is saved as a JSON replay in the
 same format as the C02 check, so `./check C02 --replay <file>` reproduces it without libFuzzer.
 
